@@ -318,6 +318,7 @@ fn premise<const D: usize>(s: &Section, u: &Uni<D>) {
 
 fn validity<G: Geo<D>, T: El, const D: usize>(s: &Section, u: &Uni<D>) {
     let (st_iv, st_mdv, st_mkv, st_cp, st_rcp) = (sa::<G, T, D>("is_valid"), sa::<G, T, D>("made_valid"), sa::<G, T, D>("make_valid"), sa::<G, T, D>("contains_point"), sr::<G, T, D>("contains_point"));
+    let (st_ep, st_mp, st_rep, st_rmp) = (sa::<G, T, D>("expanded_to_contain_point"), sa::<G, T, D>("expand_to_contain_point"), sr::<G, T, D>("expanded_to_contain_point"), sr::<G, T, D>("expand_to_contain_point"));
     u.boxes.par_iter().for_each(|b| {
         let mut t = Tally::new();
         let x = tb::<T, D>(b);
@@ -344,6 +345,18 @@ fn validity<G: Geo<D>, T: El, const D: usize>(s: &Section, u: &Uni<D>) {
                 run(s, &mut t, hull.get(idx), &st_cp, "invalid-box-contains-a-point", &inp, w + wp(p), || G::contains_point(x, px), &false);
                 let inp = || json!({"rect[position,extent]": jd(&rx), "p": jd(&px)});
                 run(s, &mut t, hull.get(idx), &st_rcp, "negative-extent-rect-contains-a-point", &inp, w + wp(p), || G::r_contains_point(rx, px), &false);
+                // "expanding to contain a point": whatever the box was (the empty set here), the result contains the point
+                // (the accumulate-from-an-inverted-box idiom); judged on the result's public fields by closed-interval membership
+                let inp = || json!({"box[min,max]": jd(&x), "p": jd(&px)});
+                for (site, got) in [(&st_ep, s.call(&st_ep, &inp, || G::expanded_pt(x, px))), (&st_mp, s.call(&st_mp, &inp, || G::expand_pt(x, px)))] {
+                    t.eval(true);
+                    if let Some(g) = got { if !(0..D).all(|i| g[0][i] <= px[i] && px[i] <= g[1][i]) { s.violation_w(site, "expanded-invalid-box-does-not-contain-the-point", json!({"input": inp(), "got": jd(&g)}), w + wp(p)); } }
+                }
+                let inp = || json!({"rect[position,extent]": jd(&rx), "p": jd(&px)});
+                for (site, got) in [(&st_rep, s.call(&st_rep, &inp, || G::r_expanded_pt(rx, px))), (&st_rmp, s.call(&st_rmp, &inp, || G::r_expand_pt(rx, px)))] {
+                    t.eval(true);
+                    if let Some(g) = got { if !(0..D).all(|i| g[0][i] <= px[i] && px[i] <= g[0][i] + g[1][i]) { s.violation_w(site, "expanded-negative-extent-rect-does-not-contain-the-point", json!({"input": inp(), "got[position,extent]": jd(&g)}), w + wp(p)); } }
+                }
             }
             if bad_axes == 1 && s.wants_sample() { s.sample(json!({"type": T::NAME, "invalid box[min,max]": jd(&x), "made_valid must be": jd(&want), "is_valid": false, "contains_point": "false on every universe point"})); }
         }
@@ -776,7 +789,7 @@ fn main() {
         s.meta("scope", json!(scope));
     });
     rep.section("validity: is_valid, make_valid/made_valid, invalid boxes are empty",
-        "every box, valid and invalid (all g^(2D) corner pairs): is_valid == (min<=max on every axis); made_valid/make_valid == per-axis sorted corners; for every invalid box and every universe point contains_point == false (box, and the rectangle with the corresponding negative extent); non-trivial: is_valid always, repairs on invalid boxes, emptiness on points inside the repaired hull", true, false, |s| {
+        "every box, valid and invalid (all g^(2D) corner pairs): is_valid == (min<=max on every axis); made_valid/make_valid == per-axis sorted corners; for every invalid box and every universe point contains_point == false (box, and the rectangle with the corresponding negative extent) and expanded_to_contain_point / expand_to_contain_point of box and rectangle yield a result that contains the point (closed-interval membership on its public fields); non-trivial: is_valid always, repairs on invalid boxes, emptiness on points inside the repaired hull", true, false, |s| {
         s.require_classes(&["valid", "invalid-box", "invalid-on-one-axis", "invalid-on-every-axis", "valid-zero-extent"]);
         all_types!(s, validity);
     });
